@@ -44,6 +44,7 @@ def plan(prop, tier):
         "C01": [("region", {"C01"}, "any", "release",
                  [corpus("fixed_findings.ndjson"), corpus("hand.ndjson"),
                   ops("single", ALLF, 480 if q else 4000, 3 if q else 4, 120 if q else 160),
+                  ops("single", "lat,frames,lat,fan", 600 if q else 6000, 3, 120),   # general slopes, boxes overlapping only a little, thinnest wedges
                   tri(2, 840, 3 if q else 1, 0)] + ([] if q else [ops("single", EXACT, 600, 6, 260)]))],
         "C02": [("nesting", {"C02"}, "any", "release",
                  [corpus("fixed_findings.ndjson"), corpus("hand.ndjson"),
@@ -67,11 +68,12 @@ def plan(prop, tier):
         "C08": [("transforms", {"C08"}, "any", "release",
                  [ops("xform", ALLF, 200 if q else 2000, 3 if q else 4, 100 if q else 140)])],
         "C09": [("farparts", {"C09"}, "any", "release",
-                 [ops("far", ALLF, 250 if q else 2500, 3 if q else 4, 100 if q else 140)])],
+                 [ops("far", ALLF, 250 if q else 2500, 3 if q else 4, 100 if q else 140), ops("far", "lat,lat,frames", 300 if q else 3000, 3, 100)])],
         "C10": [("f32-agrees", {"C10"}, "any", "release",
-                 [ops("f32", ALLF, 250 if q else 2500, 3 if q else 4, 100 if q else 140)]),
+                 [corpus("fan_f32.ndjson"), ops("f32", ALLF, 250 if q else 2500, 3 if q else 4, 100 if q else 140),
+                  ops("f32", "fan", 250 if q else 2500, 3, 100)]),
                 ("f32-guarantees", {"C01", "C02", "C03", "C04", "C05", "C06"}, "f32", "release",
-                 [ops("f32", ALLF, 150 if q else 1200, 3, 100)])],
+                 [corpus("fan_f32.ndjson"), ops("f32", ALLF, 150 if q else 1200, 3, 100), ops("f32", "fan", 150 if q else 1500, 3, 100)])],
         "C11": [("chains", {"C11", "C03", "C02"}, "any", "release",
                  [ops("chain", EXACT, 120 if q else 1000, 3, 90), ops("chain3", EXACT, 40 if q else 500, 2, 60)])],
         "C12": [("purity", {"C12"}, "any", "release",
